@@ -167,12 +167,14 @@ func (vc *VC) execInstrs(b *ssa.BasicBlock, st *State) {
 			}
 			vc.exitState[b] = st
 			for i, s := range b.Succs {
+				cc := c
+				if i == 1 {
+					cc = "(not " + c + ")"
+				}
 				if s.Dominates(b) {
-					cc := c
-					if i == 1 {
-						cc = "(not " + c + ")"
-					}
 					vc.backEdge(b, s, st, cc)
+				} else {
+					vc.loopExitEdge(b, s, st, cc)
 				}
 			}
 		case *ssa.Jump:
@@ -180,6 +182,8 @@ func (vc *VC) execInstrs(b *ssa.BasicBlock, st *State) {
 			vc.exitState[b] = st
 			if b.Succs[0].Dominates(b) {
 				vc.backEdge(b, b.Succs[0], st, "true")
+			} else {
+				vc.loopExitEdge(b, b.Succs[0], st, "true")
 			}
 		case *ssa.Return:
 			vc.execReturn(x, st)
@@ -187,6 +191,27 @@ func (vc *VC) execInstrs(b *ssa.BasicBlock, st *State) {
 			vc.execPanic(x, st)
 		default:
 			vc.fail("unsupported instruction %T: %s", in, in)
+		}
+	}
+}
+
+// loopExitEdge applies the "exithint" hints of every loop that the edge b -> s leaves.
+func (vc *VC) loopExitEdge(b, s *ssa.BasicBlock, st *State, cond string) {
+	if vc.discovery {
+		return
+	}
+	for _, lp := range vc.loops {
+		if !lp.blocks[b] || lp.blocks[s] {
+			continue
+		}
+		ls := vc.spec.Loops[lp.ordinal]
+		if ls == nil || len(ls.ExitHints) == 0 {
+			continue
+		}
+		reach := vc.define("exitedge", "Bool", andTerms([]string{vc.reach[b], cond}))
+		env := &Env{vc: vc, cur: st, old: vc.entry, vars: map[string]SVal{}, loop: lp, atHeader: true, block: b, iterOld: lp.hdrState}
+		for _, h := range ls.ExitHints {
+			vc.tryHint(env, h, reach)
 		}
 	}
 }
